@@ -168,6 +168,10 @@ func cmdCheck(args []string) int {
 	for _, fc := range flowChecks[*prop] {
 		sum.Obls = append(sum.Obls, fc(w)...)
 	}
+	kf := loadFindings(filepath.Join(*verif, "KNOWN_FINDINGS.txt"))
+	for _, o := range sum.Obls {
+		o.NoRetry = kf.match(sum.ID, o.Name) != nil
+	}
 	solveAll(sum.Obls, cfg)
 	for _, bc := range boundedChecks[*prop] {
 		sum.Bounded = append(sum.Bounded, bc(w, *tier, seed, *verif)...)
@@ -207,11 +211,11 @@ func report(w *World, sum *propSummary, cfg RunConfig, verif string, seed int, w
 	findings := loadFindings(filepath.Join(verif, "KNOWN_FINDINGS.txt"))
 	var (
 		nObl, nDis, nCover, nCoverOK int
-		evs                           []evObl
-		violations                    []*Obligation
-		known                         []string
-		solverSecs                    float64
-		backends                      = map[string]int{}
+		evs                          []evObl
+		violations                   []*Obligation
+		known                        []string
+		solverSecs                   float64
+		backends                     = map[string]int{}
 	)
 	for _, o := range sum.Obls {
 		e := evObl{Name: o.Name, Kind: o.Kind, Func: o.Func, Status: o.Status, Backend: o.Backend, Secs: round3(o.Result.Secs), Text: o.Desc}
